@@ -121,7 +121,7 @@ macro_rules! impl_tower2 {
                 let c1: <$base as PrimeField>::Repr = c1.into();
                 let c1 = $base::from_repr(c1);
 
-                CtOption::new($field::new(c0.unwrap(), c1.unwrap()), Choice::from(1))
+                c0.and_then(|c0| c1.map(|c1| $field::new(c0, c1)))
             }
 
             fn to_repr(&self) -> Self::Repr {
